@@ -10,6 +10,7 @@ inline(extract_variable); every request becomes an event judged by Trace_Refacto
 (compiles-or-refuses for every selection, same behaviour for pure once-evaluated selections).
 """
 import ast
+import signal
 import io
 import os
 import random
@@ -59,12 +60,20 @@ def run_program(src):
     except SyntaxError as e:
         return 'SyntaxError', str(e)[:80]
     buf = io.StringIO()
+
+    def on_alarm(signum, frame):
+        raise TimeoutError('program did not finish in 5 s')
+    old = signal.signal(signal.SIGALRM, on_alarm)
+    signal.alarm(5)
     try:
         with contextlib.redirect_stdout(buf):
             exec(code, {'__name__': '__c06__'})
         return 'ok', buf.getvalue()
     except Exception as e:  # noqa
-        return 'raise:' + type(e).__name__, buf.getvalue()
+        return 'raise:' + type(e).__name__, buf.getvalue()[:2000]
+    finally:
+        signal.alarm(0)
+        signal.signal(signal.SIGALRM, old)
 
 
 def norm_ast(src):
@@ -153,7 +162,84 @@ def g(p):
     return show((s, t, w, "%s-%d" % ("x", s)))
 print(g(7))
 ''',
+    # statement ranges: locals bound before the range and rebound conditionally / in loops inside it
+    '''def g(p, q):
+    s = q
+    if p > 2:
+        s = p * 2
+    t = s + 1
+    u = 0
+    for i in lst:
+        u += i
+        if i > p:
+            t = t + u
+    w = t
+    return show((s, t, u, w))
+print(g(a, b), g(b, a), g(0, 0))
+''',
+    '''def g(p):
+    n = 0
+    acc = [p]
+    while n < p:
+        n = n + 1
+        if n == 2:
+            acc = acc + [n]
+        elif n > 3:
+            acc = [n]
+    m = len(acc) + n
+    if m > 3:
+        m = m - 1
+    else:
+        n = m
+    return show((n, acc, m))
+print(g(a), g(b), g(5), g(0))
+''',
 ]
+
+
+def pure_statements(stmts):
+    """A run of statements that only (re)binds plain local names to pure expressions, possibly under if / for /
+    while with pure tests: moving it into a function and binding the results again cannot change what the program
+    prints, provided every name it reads is passed in and every name it binds that is read later is returned."""
+    def pure_expr(e):
+        return e is None or pure_selection(ast.unparse(e))
+
+    def ok(st):
+        if isinstance(st, ast.Pass):
+            return True
+        if isinstance(st, ast.Assign):
+            return all(isinstance(t, ast.Name) for t in st.targets) and pure_expr(st.value)
+        if isinstance(st, ast.AugAssign):
+            return isinstance(st.target, ast.Name) and pure_expr(st.value)
+        if isinstance(st, ast.If):
+            return pure_expr(st.test) and all(ok(x) for x in st.body + st.orelse)
+        if isinstance(st, ast.While):
+            return pure_expr(st.test) and all(ok(x) for x in st.body + st.orelse)
+        if isinstance(st, ast.For):
+            return isinstance(st.target, ast.Name) and pure_expr(st.iter) and all(ok(x) for x in st.body + st.orelse)
+        return False
+    return all(ok(st) for st in stmts)
+
+
+def stmt_runs(src, maxlen=3):
+    """Every run of 1..maxlen complete sibling statements inside a function body: (l1, c1, l2, c2, pure)."""
+    out = []
+    tree = ast.parse(src)
+    funcs = [n for n in ast.walk(tree) if isinstance(n, ast.FunctionDef)]
+    for fn in funcs:
+        for n in ast.walk(fn):
+            for field in ('body', 'orelse'):
+                body = getattr(n, field, None)
+                if isinstance(body, list) and body and isinstance(body[0], ast.stmt):
+                    if field == 'orelse' and isinstance(n, ast.If) and len(body) == 1 and isinstance(body[0], ast.If) \
+                            and body[0].col_offset == n.col_offset:
+                        continue                      # an `elif` is not a statement of its own
+                    for i in range(len(body)):
+                        for j in range(i, min(len(body), i + maxlen)):
+                            run = body[i:j + 1]
+                            out.append((run[0].lineno, run[0].col_offset, run[-1].end_lineno, run[-1].end_col_offset,
+                                        pure_statements(run)))
+    return out
 
 
 def pure_selection(text):
@@ -241,6 +327,11 @@ def extract_case(arg):
             and whole_statements(TEMPLATES[ti], pos[0], until[0])
     out['is_expr'] = is_expr
     out['pure'] = bool(is_expr and sel_text is not None and pure_selection(sel_text))
+    out['pure_stmts'] = False
+    if until is not None and kind == 'extract_function':
+        out['pure_stmts'] = any(r[:4] == (pos[0], pos[1], until[0], until[1]) and r[4] for r in stmt_runs(TEMPLATES[ti]))
+        if out['pure_stmts']:
+            out['whole_lines'] = True
     before = run_program(src)
     try:
         ref = getattr(jedi.Script(src), kind)(line, col, new_name='ext_zz', **kw)
@@ -260,7 +351,7 @@ def extract_case(arg):
     out['compiles'] = after[0] != 'SyntaxError'
     out['same'] = after == before
     out['after'] = after[0]
-    out['new'] = new[len(PRELUDE):] if not out['compiles'] or (out['pure'] and not out['same']) else None
+    out['new'] = new[len(PRELUDE):] if not out['compiles'] or ((out['pure'] or out['pure_stmts']) and not out['same']) else None
     # round trip for extract_variable: inline the new variable again
     if kind == 'extract_variable' and out['compiles']:
         m = re.search(r'^(\s*)ext_zz = ', new, re.M)
@@ -361,6 +452,9 @@ def run(ctx):
             if l1 > off:
                 for kind in ('extract_variable', 'extract_function'):
                     jobs.append((ti, kind, [l1 - off, c1], [l2 - off, c2], 0))
+        # every run of complete sibling statements of a function body (extract_function only)
+        for (l1, c1, l2, c2, _pure) in stmt_runs(t):
+            jobs.append((ti, 'extract_function', [l1, c1], [l2, c2], 0))
         lines = t.split('\n')
         for _ in range(25 if quick else 300):       # arbitrary (not token-aligned) ranges and cursor-only requests
             l1 = rng.randrange(1, len(lines))
@@ -380,11 +474,16 @@ def run(ctx):
         k = '%s:%s' % (r['kind'], r['outcome'].split(':')[0] + ('' if not ok else (':compiles' if r['compiles'] else ':INVALID')))
         stats[k] = stats.get(k, 0) + 1
         traces.append([{'ev': 'Extract', 'outcome': r['outcome'] if not r['outcome'].startswith('internal') else 'Internal',
-                        'compiles': bool(ok and r['compiles']), 'same': bool(ok and r['same']), 'pure': bool(r['pure']),
+                        'compiles': bool(ok and r['compiles']), 'same': bool(ok and r['same']),
+                        'pure': bool(r['pure'] or r['pure_stmts']),
                         'isexpr': bool(r['is_expr']), 'roundtrip': r.get('roundtrip', 'na')}])
         owners.append(('extract', r))
     ctx.coverage['extract_outcomes'] = stats
     ctx.coverage['pure_expression_selections'] = sum(1 for r in ex if r['pure'])
+    ctx.coverage['pure_statement_selections'] = sum(1 for r in ex if r['pure_stmts'])
+    ctx.coverage['pure_statement_selections_extracted'] = sum(1 for r in ex if r['pure_stmts'] and r['outcome'] == 'ok')
+    if ctx.coverage['pure_statement_selections_extracted'] < 20:
+        raise MachineryError('vacuity: too few pure statement selections extracted')
     if ctx.coverage['pure_expression_selections'] < 50:
         raise MachineryError('vacuity: too few pure expression selections')
     vs = validate_traces('Trace_Refactor', 'Trace_Refactor.cfg', traces, ctx, 'Trace_Refactor')
